@@ -645,3 +645,29 @@ mod tests {
         assert!(dedup_contact_points(Vec::new()).is_empty());
     }
 }
+
+/// Verification hooks (only with `--cfg scylla_verif`): a `Node` object without a
+/// connection pool, exactly what the `#[cfg(test)]` helper `Node::new_for_test` builds.
+#[cfg(scylla_verif)]
+#[allow(missing_docs)]
+pub mod verif_hooks {
+    use super::{Node, NodeAddr};
+    use uuid::Uuid;
+
+    pub fn node_without_pool(
+        host_id: Uuid,
+        address: NodeAddr,
+        datacenter: Option<String>,
+        rack: Option<String>,
+    ) -> Node {
+        Node {
+            host_id,
+            address,
+            datacenter,
+            rack,
+            pool: None,
+            #[cfg(test)]
+            enabled_as_connected: std::sync::atomic::AtomicBool::new(false),
+        }
+    }
+}
